@@ -142,9 +142,19 @@ Proof.
 Qed.
 Print Assumptions C17_outcomes.
 
-(* --- 7. histories: after ANY sequence of installation calls on the same directory (each call with its
-        own adversarial server, untar behaviour, number of attempts and flags — failed attempts, retries,
-        forced re-installations in any order) every archive ever extracted had the published digest, no
+(* --- 7a. the `download` command (with or without force, any server, any prior state, marked or not)
+        never extracts, never upgrades and never touches the installed index *)
+Theorem C17_download_command_inert :
+  forall sha srv name expected n force s0,
+  let sf := final (download_cmd sha srv name expected n force s0) in
+  index sf = index s0 /\ log sf = log s0.
+Proof. intros. exact (download_cmd_frame sha srv name expected (fun _ => false) n force s0). Qed.
+Print Assumptions C17_download_command_inert.
+
+(* --- 7. histories: after ANY sequence of `install` / `download` calls on the same directory (each call
+        with its own adversarial server, untar behaviour, number of attempts and flags — failed attempts,
+        retries, forced re-downloads and forced re-installations in any order; only the archive file and
+        the index persist between calls) every archive ever extracted had the published digest, no
         extraction happened on a marked dataset, the dataset is marked at the end only if it was marked at
         the start or a verified archive was extracted, and other datasets' markers are as at the start *)
 Theorem C17_any_history :
